@@ -141,7 +141,7 @@ extern int v_pcall_mode, v_pcall_level; /* mode 0 plain / 1 all-ones / 2 a5; lev
 uint64_t xs_next(uint64_t *s);
 void fill_xorshift(uint8_t *p, size_t n, uint64_t seed);
 void fill_pattern(uint8_t *p, size_t n, int cls, uint64_t seed); /* content classes of SHAPES */
-enum { PAT_ZERO, PAT_FF, PAT_ONE, PAT_P2, PAT_P3, PAT_P5, PAT_P258, PAT_P259, PAT_RAMP, PAT_XS, PAT_TEXT, PAT_N };
+enum { PAT_ZERO, PAT_FF, PAT_ONE, PAT_P2, PAT_P3, PAT_P5, PAT_P258, PAT_P259, PAT_RAMP, PAT_XS, PAT_TEXT, PAT_LOG, PAT_N }; /* PAT_LOG: log-file-like lines from a small vocabulary with counters and a few random characters: irregular match lengths and distances, unlike the strictly periodic PAT_TEXT */
 extern const char *pat_name[];
 /* TINY(sigma,n): enumerate all strings over sigma of length<=n: idx -> string; returns length or -1 */
 int tiny_string(const uint8_t *sigma, int nsig, int maxlen, uint64_t idx, uint8_t *out);
